@@ -139,12 +139,14 @@ Inductive sstmt := SLockR | SDeferUnlockR | SNilCheck | SGetProcess | SCtx | SDe
 Inductive cstmt := CCancelMonitoring | CLock | CRLock | CDeferUnlock.
 (* Subprocess.stop *)
 Inductive ostmt := OIfNotOnReturn | OCheck | ORetIfErr | OLock | ODeferUnlock | ODeferCancelIf | OLogStopping | OCmdStop
-                 | OCmdReset | ORunningFalse | OLogEnd | OReturn.
+                 | OCmdReset | ORunningFalse | OLogEnd | OReturn | OIfUndefinedReturn.
 (* Subprocess.Execute *)
 Inductive estmt := ECheck | ERetIfErr | ELock | EUnlock | EDeferUnlock | EDeferCancel | EIfOnConflict | EMonReset | ECmdReset
                  | ELogStart | ERunMonitoring | EGetCmd | ERunningTrue | ERun | ECtxErrWrap | ERunningFalse | ELogEnd | EReturn.
 (* the monitor goroutine of subprocessMonitoring.runProcessMonitoring *)
-Inductive mstmt := MOnTrue | MWaitCtx | MCancel | MStop | MStopGuarded | MOnFalse | MOnTrueSync.
+(* MOnTrueSync / MLaunchClearsStopping: monitoringOn set, monitoringStopping cleared, by the launcher before the goroutine exists;
+   MResetClearsStopping: subprocessMonitoring.Reset clears monitoringStopping (it must not: see mon_relaunch_ok) *)
+Inductive mstmt := MOnTrue | MWaitCtx | MCancel | MStop | MStopGuarded | MOnFalse | MOnTrueSync | MLaunchClearsStopping | MResetClearsStopping.
 
 (* Subprocess.Start *)
 Inductive tstmt := TIfOnReturn | TLock | TUnlock | TDeferUnlock | TCheck | TRetIfErr | TReset | TRunMonitoring | TGetCmd | TCmdStart
@@ -163,11 +165,11 @@ Record facts := mkFacts {
 Definition rcode (r : rstmt) : nat := match r with RLockR => 0 | RDeferUnlockR => 1 | RNilCheck => 2 | RRunPlain => 3 | RStart => 4
   | RRetIfErr => 5 | RCapture => 6 | RWatcher => 7 | RWait => 8 | RCloseDone => 9 | RPostKill => 10 | RFlush => 11 | RReturn => 12 end.
 Definition ocode (o : ostmt) : nat := match o with OIfNotOnReturn => 0 | OCheck => 1 | ORetIfErr => 2 | OLock => 3 | ODeferUnlock => 4
-  | ODeferCancelIf => 5 | OLogStopping => 6 | OCmdStop => 7 | OCmdReset => 8 | ORunningFalse => 9 | OLogEnd => 10 | OReturn => 11 end.
+  | ODeferCancelIf => 5 | OLogStopping => 6 | OCmdStop => 7 | OCmdReset => 8 | ORunningFalse => 9 | OLogEnd => 10 | OReturn => 11 | OIfUndefinedReturn => 12 end.
 Definition ecode (e : estmt) : nat := match e with ECheck => 0 | ERetIfErr => 1 | ELock => 2 | EUnlock => 3 | EDeferUnlock => 4
   | EDeferCancel => 5 | EIfOnConflict => 6 | EMonReset => 7 | ECmdReset => 8 | ELogStart => 9 | ERunMonitoring => 10 | EGetCmd => 11
   | ERunningTrue => 12 | ERun => 13 | ECtxErrWrap => 14 | ERunningFalse => 15 | ELogEnd => 16 | EReturn => 17 end.
-Definition mcode (m : mstmt) : nat := match m with MOnTrue => 0 | MWaitCtx => 1 | MCancel => 2 | MStop => 3 | MStopGuarded => 4 | MOnFalse => 5 | MOnTrueSync => 6 end.
+Definition mcode (m : mstmt) : nat := match m with MOnTrue => 0 | MWaitCtx => 1 | MCancel => 2 | MStop => 3 | MStopGuarded => 4 | MOnFalse => 5 | MOnTrueSync => 6 | MLaunchClearsStopping => 7 | MResetClearsStopping => 8 end.
 
 (* [x] occurs in [l]; the part of [l] before / after the first [x] *)
 Definition has (x : nat) (l : list nat) : bool := existsb (Nat.eqb x) l.
@@ -216,14 +218,24 @@ Definition tcode (t : tstmt) : nat := match t with TIfOnReturn => 0 | TLock => 1
 Definition start_locks (F : facts) : bool :=
   let l := map tcode (g_start F) in has 1 (before 9 l) && negb (has 2 (before 9 (after 1 l))).
 Definition start_rechecks (F : facts) : bool := has 0 (before 9 (after 1 (map tcode (g_start F)))).
-Definition start_ok (F : facts) : bool := start_locks F && start_rechecks F.
+(* IsOn() = isRunning && monitoringOn: monitoringOn is set by the launcher, before the monitor goroutine exists, and not by
+   the goroutine itself (else IsOn() is still false for a while after Start() returned) *)
+Definition mon_on_sync (F : facts) : bool := let l := map mcode (g_monitor F) in has 6 l && negb (has 0 l).
+(* a Start()/Execute() right after a Stop()/Cancel() must not take the finishing monitor for a live one: only the launcher of
+   a new monitor ends the stopping phase, Reset does not.  (Needed for sequences of runs on one object, which the LTS below
+   does not exhibit: required of the source, exercised by the harness's histories.) *)
+Definition mon_relaunch_ok (F : facts) : bool := let l := map mcode (g_monitor F) in has 7 l && negb (has 8 l).
+Definition start_ok (F : facts) : bool := start_locks F && start_rechecks F && mon_on_sync F.
 (* stop() runs Check() before it kills anything: Check must not be able to fail on a running subprocess *)
 Definition check_pure (F : facts) : bool := g_check_pure F.
+Definition stop_checks_first (F : facts) : bool := has 1 (before 7 (map ocode (g_stop_outer F))).
+Definition stop_never_gives_up (F : facts) : bool := check_pure F || negb (stop_checks_first F).
 
 (* what cancel_kills_group needs of the source *)
 Definition facts_ok (F : facts) : bool :=
   kill_works F && run_watches F && run_postkill F && stop_kills_before_wait F && cancel_lockfree F && stop_rechecks F &&
-  stop_clears_running F && exec_holds_lock F && exec_flags F && mon_stops F && check_pure F.
+  stop_clears_running F && exec_holds_lock F && exec_flags F && mon_stops F && stop_never_gives_up F && mon_on_sync F &&
+  mon_relaunch_ok F.
 
 Definition kill_leader (tb : list proc) : list proc := map (fun p => if lead p then set_dead p else p) tb.   (* default cmd.Cancel: Process.Kill *)
 
@@ -240,7 +252,7 @@ Definition main_step (s : st) : option st :=
   match mainpc s with
   | M0 => if mu_free s then Some (with_main (with_mu s (Some OMain)) M1) else None
   | M1 => (* runProcessMonitoring; cmd.Start; isRunning = true;  Start() then unlocks and returns *)
-      let s1 := with_mon (with_mon_on (with_running (with_tbl s [root_proc (prog s)]) (if executes s then exec_flags F else true)) true) NWait in
+      let s1 := with_mon (with_mon_on (with_running (with_tbl s [root_proc (prog s)]) (if executes s then exec_flags F else true)) (mon_on_sync F)) NWait in
       if executes s then Some (with_main (if exec_holds_lock F then s1 else with_mu s1 None) M2)
       else Some (with_main (with_mu s1 None) MDone)
   | M2 => if leader_dead (tbl s) then Some (with_main (with_reaped s) M3) else None
@@ -256,7 +268,7 @@ Definition main_step (s : st) : option st :=
 Definition stop_step (who : owner) (cancel : bool) (p : spc) (set : st -> spc -> st) (s : st) : option st :=
   match p with
   | P0 => (* if !IsOn() return; err = Check(); if err != nil return  — a Check that looks at the world may fail here *)
-      if is_on s && check_pure F then Some (set s P1) else Some (set s PDone)
+      if is_on s && stop_never_gives_up F then Some (set s P1) else Some (set s PDone)
   | P1 => if mu_free s then
             if is_on s || negb (stop_rechecks F) then Some (set (with_mu s (Some who)) PT)
             else Some (set (with_ctx s (ctx_done s || cancel)) PDone)
@@ -406,7 +418,7 @@ Definition a_step (s : ast) (i : nat) : option ast :=
   | A2 => if start_rechecks F && a_on s
           then Some (mkAst (if start_locks F then None else a_lock s) (a_on s) (a_count s) (a_set (a_pc s) i ADone))
           else Some (mkAst (a_lock s) (a_on s) (a_count s) (a_set (a_pc s) i A3))
-  | A3 => Some (mkAst (if start_locks F then None else a_lock s) true (S (a_count s)) (a_set (a_pc s) i ADone))
+  | A3 => Some (mkAst (if start_locks F then None else a_lock s) (mon_on_sync F) (S (a_count s)) (a_set (a_pc s) i ADone))
   | ADone => None
   end.
 Definition a_run (s : ast) (sched : list nat) : ast :=
